@@ -659,9 +659,10 @@ PROPERTIES["C03"] = {
     "level_note": SRE_NOTE,
     "technique": SRE_TECH,
     "explanation": "C03: bundle_t::{ctor, moveto, append, solve (size<=2 analytic branch), delete_inactive, delete_largest, store/append_aggregate, econverged, sconverged} and solver_ellipsoid_t::do_minimize on symbolic convex functions sum a_i|z_i-b_i| + q/2|z-c|^2.",
-    "assumptions": SRE_ASSUME + ["convex test functions with symbolic a_i in [0,8] (sharp: [1,8]), b, c in [-4,4], q in [0,4]", "bundle max_size 2 (multiplier update stays in the analytic 2-point branch; larger bundles need the interior-point QP on symbolic data)"],
+    "assumptions": SRE_ASSUME + ["convex test functions with symbolic a_i in [0,8] (sharp: [1,8]), b, c in [-4,4], q in [0,4]", "bundle max_size 2 (multiplier update stays in the analytic 2-point branch; larger bundles need the interior-point QP on symbolic data)",
+                                 "C03_outer: csearch_t::search replaced by an arbitrary curve search (fresh symbolic point evaluated by the oracle function, arbitrary status; descent / cutting-plane steps only with f(y) <= f(centre), the consequence of the real sufficient-decrease test fx - fy >= m1*delta with delta >= 0)"],
     "bounds": {"dims": "1..2", "bundle operations": "<= 3", "ellipsoid": "max_evals 10 (<= 4 cuts), R symbolic in [1e-20,10], eps in [1e-8,1e-3]"},
-    "outside": ["RQB/FPBA1/FPBA2 outer loops beyond the bounded end-to-end runs of mode=bsolver (1-D sharp functions, bundle::max_size 2, max_evals 10..20: most optimality obligations come back `unknown` from nlsat and are counted inconclusive; seeded change C03b is not caught)", "'ellipsoid always converges within 20000 evaluations' beyond the bounded necessary condition", "bundles with more than 2 points (inner QP)"],
+    "outside": ["RQB/FPBA1/FPBA2 end to end beyond the bounded runs of mode=bsolver (1-D sharp functions, bundle::max_size 2, max_evals 10..20: most optimality obligations come back `unknown` from nlsat and are counted inconclusive). The property is decomposed instead: C03_bundle checks the certificate of the curve search's stopping tests about the CENTRE, C03_outer checks that the outer loops return a truthful state at least as good as that centre for every behaviour of the curve search (max_evals 10..14); the factor (1+|x-x*|) of the bound is taken at the centre, not at the returned point (they differ only for FPBA)", "'ellipsoid always converges within 20000 evaluations' beyond the bounded necessary condition", "bundles with more than 2 points (inner QP)"],
     "units": [
         {"engine": "sre", "harness": "C03_bundle", "sources": ["C03_bundle.cpp"],
          "quick": ["mode=bundle;d=1;ops=1;pat=1", "mode=bundle;d=1;ops=1;pat=0", "mode=bundle;d=1;ops=2;pat=2;q=0", "mode=bundle;d=1;ops=2;pat=1;q=0", "mode=bundle;d=2;ops=1;pat=1;q=0",
@@ -672,5 +673,14 @@ PROPERTIES["C03"] = {
          "budget": {"quick": {"deadline_s": 50, "max_paths": 5000, "query_s": 8}, "thorough": {"deadline_s": 600, "max_paths": 100000, "query_s": 30}},
          "encoded": ["nano::bundle_t::{bundle_t, moveto, append, solve, delete_inactive, delete_largest, store_aggregate, append_aggregate, econverged, sconverged, smeared_e, smeared_s}",
                      "nano::solver_ellipsoid_t::do_minimize", "nano::solver_t::done", "nano::solver_state_t::update_if_better", "nano::remove_if"]},
+        # outer loops of RQB / FPBA1 / FPBA2 with the curve search replaced by an arbitrary one (arbitrary status, arbitrary point,
+        # serious steps only with f(y) <= f(centre)): the returned state is at least as good as the centre the converging curve
+        # search certified, truthful, and (RQB) equal to it; centre bookkeeping across serious / null steps
+        {"engine": "sre", "harness": "C03_outer", "sources": ["C03_outer.cpp"], "flags": ["-fno-access-control"],
+         "quick": ["solver=rqb;d=1", "solver=fpba1;d=1", "solver=fpba2;d=1", "solver=rqb;d=2"],
+         "thorough": ["solver=%s;d=%d;evals=%d" % (sv, d, e) for sv in ("rqb", "fpba1", "fpba2") for (d, e) in ((1, 10), (2, 10), (1, 14))],
+         "budget": {"quick": {"deadline_s": 40, "max_paths": 4000, "query_s": 5}, "thorough": {"deadline_s": 600, "max_paths": 200000, "query_s": 20}},
+         "encoded": ["nano::solver_rqb_t::do_minimize", "nano::base_solver_fpba_t<nesterov_sequence1_t / 2_t>::do_minimize", "nano::bundle_t::{make, moveto, append, x, fx, gx, smeared_s}", "nano::proximity_t::{make, update, miu}",
+                     "nano::nesterov_sequence1_t / 2_t::{update, reset}", "nano::solver_state_t::{update, update_if_better, update_calls}", "nano::solver_t::done", "csearch_t::search replaced by an arbitrary curve search (link time)"]},
     ],
 }
